@@ -101,7 +101,7 @@ class Tok:
 
 
 class Concretiser:
-    def __init__(self, seed=0, lookalikes=False, ascii_only=False, no_multiline=False, avoid_quote=None, bare_strings=False, strings=None):
+    def __init__(self, seed=0, lookalikes=False, ascii_only=False, no_multiline=False, avoid_quote=None, bare_strings=False, strings=None, exprs=None):
         self.rng = random.Random(seed)
         r = self.rng
 
@@ -126,7 +126,7 @@ class Concretiser:
         self.hexes = perm(HEX_POOL)
         self.binds = perm(BIND_POOL)
         self.regexes = perm(REGEX_POOL)
-        self.exprs = perm(EXPR_POOL)
+        self.exprs = perm(EXPR_POOL) if exprs is None else list(exprs)
         self.chars = perm(CHAR_POOL)
         self.kvkeys = perm(KVKEY_POOL)
         self.cfgkeys = perm(CFGKEY_POOL)
